@@ -102,6 +102,7 @@ def lemmas(ctx):
 # ---------------------------------------------------------------------------------------------- bounded
 def bounded(ctx):
     from pyvc import native
+    from bounded import gen as gen_
     from Bio.Seq import Seq
     from Bio.SeqRecord import SeqRecord
     ns = native.load(ctx.repo_root)
@@ -136,12 +137,20 @@ def bounded(ctx):
     samples.append(dict(kind="iupac-table", pattern="R", target="g", matches=DNARegex("R").search(Seq("g")) is not None))
     # (2) all targets up to length L over ACGT x pattern family x ranges x 4 target kinds
     L = 5 if ctx.tier == "quick" else 6
-    patterns = ["(A)", "(AC)", "A(N*)T", "(N)(N*?)(G)", "C(NN)", "(R)(Y)", "(N*)", "G(N*?)G(N)", "(NNN)"]
+    patterns = ["(A)", "(AC)", "A(N*)T", "(N)(N*?)(G)", "C(NN)", "(R)(Y)", "(N*)", "G(N*?)G(N)", "(NNN)",
+                # the other regex operators pass through unchanged, each letter still standing for its own set: runs of one
+                # code followed by an optional marker, a one-or-more marker, a counted repeat
+                "(A)NN?(T)", "(R)(N+)", "A(NN{1,2})", "(YY{2})", "(A|CC)(N)"]
     if ctx.tier != "quick":
-        patterns += ["(A)(N*)(C)(N*?)(T)", "(W)(S)(N*)", "(N)(N)(N)(N)"]
+        patterns += ["(A)(N*)(C)(N*?)(T)", "(W)(S)(N*)", "(N)(N)(N)(N)", "(S)(WW?)(N*?)(S)", "(NNN+?)(G)"]
     for pat in patterns:
-        rx = DNARegex(pat)
-        cre = re.compile(DNARegex._transcribe(pat)) if hasattr(DNARegex, "_transcribe") else rx.regex
+        try:
+            rx = DNARegex(pat)
+        except Exception as e:
+            viol.append(dict(name="pattern_refused", what="DNARegex(%r) raised %r" % (pat, e), case=dict(pattern=pat)))
+            continue
+        # independent reference: every IUPAC letter replaced by the class of the nucleotides it stands for, nothing else touched
+        cre = re.compile("(?i)" + "".join("[%s]" % gen_.IUPAC[c_.upper()] if c_.upper() in gen_.IUPAC else c_ for c_ in pat))
         ngroups = cre.groups
         for n in range(1, L + 1):
             for tup in itertools.product("ACGT", repeat=n):
